@@ -1,5 +1,6 @@
 (** C10 - round-robin senders deliver each message to exactly one peer, in rotation.  Property theorems only. *)
 From ZV Require Import Base.Bytes Base.Res Model.Codec Model.World Proofs.SocketProofs.
+From ZV Require Proofs.PushDistribution.
 
 (** no live peer in the rotation: the send fails, hands the message back intact, writes nothing *)
 Theorem C10_no_peer : forall fuel w m, w_type w <> REQ -> (forall k, In k (w_rr w) -> memN k (w_peers w) = false) ->
@@ -34,3 +35,13 @@ Theorem C10_late_joiner : forall w c ann, w_type w = PUSH \/ w_type w = DEALER -
   w_rr (do_attach w c ann) = w_rr w ++ [c] /\ memN c (w_peers (do_attach w c ann)) = true.
 Proof. exact late_joiner_at_tail. Qed.
 Print Assumptions C10_late_joiner.
+
+(** closed form over whole histories: a PUSH or DEALER socket with n connected peers writes message number i
+    (from 0), whole, to peer number (i mod n) in joining order - every message to exactly one peer, in strict rotation *)
+Theorem C10_distribution : forall t cs ms,
+  t = PUSH \/ t = DEALER -> NoDup cs -> cs <> [] ->
+  World.run (world0 t) (map (fun c => OAttach c None) cs ++ map OSend ms ++ map OWire cs) =
+  map (fun c => BAtt c None) cs ++ repeat BSendOk (length ms) ++
+  map (fun ic => BWire (snd ic) (concat (map encode_frames (PushDistribution.share (fst ic) (length cs) ms)))) (combine (seq 0 (length cs)) cs).
+Proof. exact PushDistribution.push_distributes. Qed.
+Print Assumptions C10_distribution.
